@@ -6,4 +6,4 @@ import (
 )
 
 func constantInt(i int64) constant.Value { return constant.MakeInt64(i) }
-func tInt() types.Type                    { return types.Typ[types.Int] }
+func tInt() types.Type                   { return types.Typ[types.Int] }
